@@ -609,6 +609,17 @@ func c10ClosedOnlyWhenClosed(e *Env) {
 					if _, fl, isF := core.FieldOf(core.Arg(c, 0)); isF && fl == "closed" {
 						return core.CondMatch{Match: true, Branch: true}
 					}
+					// the step shared by the listeners takes the flag as a parameter: every caller passes its closed field
+					alts := core.ResolveAll(core.ArgRaw(c, 0))
+					all := len(alts) > 1
+					for _, a := range alts {
+						if _, fl, isF := core.FieldOf(a); !isF || fl != "closed" {
+							all = false
+						}
+					}
+					if all {
+						return core.CondMatch{Match: true, Branch: true}
+					}
 				}
 				return core.CondMatch{}
 			}); !guarded {
